@@ -108,6 +108,20 @@ MUTANTS = [
      "                else:  # Second argument that contains fluent_expressions\n                    is_linear = is_linear and len(spf & snf) == 0", "walk_times"),
     ("C17", "unified_planning/model/walkers/linear_checker.py",
      "            and len(denominator_positive_fluents) == 0\n", "", "walk_div"),
+    ("C13", "unified_planning/model/walkers/substituter.py",
+     "            fun = self.functions[expression.node_type]\n            res = fun(expression, args=[res_expression], **kwargs)",
+     "            if res_expression is expression.arg(0):\n                res = expression\n            else:\n                fun = self.functions[expression.node_type]\n                res = fun(expression, args=[res_expression], **kwargs)",
+     "_push_with_children_to_stack"),
+    ("C13", "unified_planning/model/walkers/substituter.py",
+     "                if all(\n                    m not in expression.variables()", "                if any(\n                    m not in expression.variables()", "_push_with_children_to_stack"),
+    ("C13", "unified_planning/model/walkers/substituter.py",
+     "        res = subs.get(expression, None)\n        if res is not None:\n            return res",
+     "        res = subs.get(expression, None)\n        if res is not None and len(args) == 0:\n            return res", "walk_replace_or_identity"),
+    ("C13", "unified_planning/model/walkers/substituter.py",
+     "            if new_k.type.is_compatible(new_v.type):\n                new_substitutions[new_k] = new_v",
+     "            new_substitutions[new_k] = new_v\n            if new_k.type.is_compatible(new_v.type):\n                pass", "Substituter.substitute"),
+    ("C13", "unified_planning/model/walkers/identitydag.py",
+     "        return self.manager.LE(args[0], args[1])", "        return self.manager.LE(args[1], args[0])", "walk_le"),
     ("C11", "unified_planning/model/walkers/simplifier.py",
      "            return self.manager.Bool(not l)", "            return self.manager.Bool(l)", "walk_not"),
 ]
